@@ -24,10 +24,11 @@ type Scenario struct {
 	Jumps  bool   `json:"clock_jumps"`
 	Fn     string `json:"entry"` // lib | wasi
 	Small  bool   `json:"small_tree"`
+	Kinds  int    `json:"fault_kinds"` // 0 = all three
 }
 
 func (sc Scenario) String() string {
-	return fmt.Sprintf("n=%d,sub=%q,faults=%v,entry=%s,small=%v", sc.N, sc.Sub, sc.Faults, sc.Fn, sc.Small)
+	return fmt.Sprintf("n=%d,sub=%q,faults=%v/%d,entry=%s,small=%v", sc.N, sc.Sub, sc.Faults, sc.Kinds, sc.Fn, sc.Small)
 }
 
 // the archived tree: path -> bytes ("" marks a directory)
@@ -108,6 +109,10 @@ func Run(s *vs.Sched, sc Scenario, root string) Outcome {
 	url := "http://verif.invalid/dl/lib-1.0.tar.gz"
 	vhttp.Bodies = map[string][]byte{url: archive(sc.Sub), wasiSdkUrl: archive(wasiMacosSubdir)}
 	vhttp.Faults, vhttp.Gets, vhttp.Failures = sc.Faults, 0, 0
+	vhttp.Kinds = 3
+	if sc.Kinds > 0 {
+		vhttp.Kinds = sc.Kinds
+	}
 	cache := filepath.Join(root, "cache")
 	dst := filepath.Join(cache, "lib-1.0")
 	top := dst
